@@ -53,7 +53,7 @@ PLAN = {
     "C05": {"mc": [MC_INST], "gen": [G("evaluate", "Gen_Inst_Evaluate.cfg", module="Gen_Inst.tla")], "drive": [D("evaluate", 2000, 100000)]},
     "C06": {"mc": [MC_INST], "gen": [G("samples", "Gen_Inst_Samples.cfg", module="Gen_Inst.tla")], "drive": [D("samples", 1000, 50000)]},
     "C07": {
-        "schema": True,
+        "schema": True, "reencode": True,
         "mc": [M("wire", "MC_Wire.tla", "MC_Wire.cfg")],
         "gen": [G("wire", "Gen_Wire.cfg", module="Gen_Wire.tla")],
         "drive": [D("wire", 600, 20000)],
@@ -75,6 +75,7 @@ PLAN = {
     "C14": {"mc": [MC_INST], "gen": [G("histories", "Gen_Inst_Histories.cfg", module="Gen_Inst.tla")], "drive": [D("relax_restore", 600, 30000)]},
     "C15": {"mc": [MC_INST, {"name": "best", "module": "MC_Best.tla", "cfg_quick": "MC_Best.cfg"}], "gen": [G("best", "Gen_Inst_Best.cfg", module="Gen_Inst.tla")], "drive": [D("as_min", 500, 20000), D("best", 1500, 60000)]},
     "C17": {
+        "mc": [{"name": "mpsreader", "module": "MC_MpsReader.tla", "cfg_quick": "MC_MpsReader.cfg"}],
 
         "gen": [G("mps", "Gen_Mps.cfg", module="Gen_Mps.tla"),
                 G("mpsrand", "Gen_MpsRand.cfg", module="Gen_Mps.tla", models=("mps_models", 300, 20000))],
@@ -129,7 +130,7 @@ OWN = {
     "C16": {"bound_op": "*", "eval_bound": "*", "content_factor": "*"},
     "C05": {"evaluate": "*"},
     "C06": {"evaluate_samples": "*"},
-    "C07": {"schema_msg": "*", "schema_enum": "*", "wire_decode": "*", "wire_encode": "*", "artifact_file": "*"},
+    "C07": {"schema_msg": "*", "schema_enum": "*", "wire_decode": "*", "wire_encode": "*", "wire_redecode": "*", "artifact_file": "*"},
     "C08": {"validate": "*", "pvalidate": "*", "typed": "*"},
     "C09": {"penalty": "*", "uniform_penalty": "*"},
     "C10": {"with_parameters": "*", "to_parametric": "*"},
